@@ -14,6 +14,7 @@ from ..ref import quat as rq
 PROP = "C19"
 LEVEL = "exploration"
 SHARDS = {"quick": 4, "thorough": 16}
+THOROUGH_DEPTH = 20      # thorough tier = this many times the base thorough budget (VERIF_DEPTH overrides)
 FORMS = ["fresh", "view", "aliased", "float32-free"]
 REGIONS = {"form:fresh": 300, "form:view": 300, "form:aliased": 300}
 THOROUGH_QUOTA_MULT = 4
@@ -328,7 +329,7 @@ ASSUMPTIONS = ["only parameters documented as arrays are passed arrays", "explic
 
 def generate(rng, tier, shard, nshards):
     nspec = len(specs())             # generate() runs in the check process, where ahrs is importable
-    reps = 3 if tier == "quick" else 16
+    reps = 3 if tier == "quick" else gens.reps(16, tier)
     k = 0
     for rep in range(reps):
         for idx in range(nspec):
